@@ -12,6 +12,7 @@ result = {"import_error": None | {"type", "msg", "module", "line", "text"},
           "manifests": {module: [names]},
           "headers": {module: {"package", "marshal"}}   (the arguments of `__protobuf__ = proto.module(...)` as proto-plus keeps them),
           "roundtrips": [{"bytes_out": b64, "json_out": text, "from_json_out": b64} | {"raised", "msg", "stage"}],
+          "shadowed_class_api_values": {full_name: {name: the str it evaluates to}},
           "shadowed_class_api": {full_name: [names of pb/serialize/deserialize/to_json/... that are no longer the class-level API]},
           "types_all": {types package: {"all": [...], "missing": [names of __all__ that are not attributes]}}}
 
@@ -101,6 +102,7 @@ def op_types_session(o):
             lost_api = [n for n in CLASS_API if isinstance(getattr(cls, n, None), str)]
             if lost_api:
                 out.setdefault("shadowed_class_api", {})[full] = lost_api
+                out.setdefault("shadowed_class_api_values", {})[full] = {n: getattr(cls, n) for n in lost_api}
             rec = {"module": modname, "qualname": cls.__qualname__, "attrs": list(cls._meta.fields.keys())}
             if pbcls is None:
                 rec["desc"] = None
